@@ -502,7 +502,7 @@ func TestC12(t *testing.T) {
 		})
 	}
 	// ---- field-reset enumeration over generated accepted vectors ------------------------------------
-	c.rapidStage("reset", pick(2000, 100000), func(rt *rapid.T) {
+	c.rapidStage("reset", pick(8000, 100000), func(rt *rapid.T) {
 		ver := rapid.SampledFrom([]int{2, 3}).Draw(rt, "version")
 		lv := gen.Level().Draw(rt, "level")
 		var vec spec.Vec
@@ -521,7 +521,7 @@ func TestC12(t *testing.T) {
 		}
 	})
 	// ---- arbitrary strings ------------------------------------------------------------------------
-	c.rapidStage("strings", pick(100000, 3000000), func(rt *rapid.T) {
+	c.rapidStage("strings", pick(320000, 3000000), func(rt *rapid.T) {
 		ver := rapid.SampledFrom([]int{2, 3}).Draw(rt, "version")
 		cs, cl := drawStringCase(rt, ver, int(pick(512, 65536)))
 		c.rec.Case("strings", cs.key(), !refAccept(cs), cl...)
